@@ -89,6 +89,7 @@ class Assembler:
                 if m:
                     self.labels[len(out)] = m.group(1)
 
+        self._template_text = '\n'.join(lines)
         while i < len(lines):
             line = lines[i]
             s = line.strip()
@@ -177,6 +178,37 @@ class Assembler:
         text = '\n'.join(out) + '\n'
         self._index_proof_fns(text)
         return text
+
+    def _autoconst(self, body, src, qn, log):
+        done = set()
+        for _ in range(4):
+            m = mask(body)
+            added = False
+            for name in sorted(set(re.findall(r'(?<![\w:!])([A-Z][A-Z0-9_]{2,})\b(?!\s*(?:!|::))', m))):
+                if name in done:
+                    continue
+                done.add(name)
+                defined = re.search(r'\b(const|static|struct|enum|type|fn|trait|mod)\s+' + name + r'\b', self._template_text) \
+                    or re.search(r'//@const\s+\S+\s+' + name + r'\b', self._template_text) \
+                    or re.search(r'\b(const|let)\s+(mut\s+)?' + name + r'\b', m) \
+                    or re.search(r'<[^<>]*\bconst\s+' + name + r'\b', m)
+                if defined:
+                    continue
+                try:
+                    a, b = src.find_const(name)
+                except LostAnchor:
+                    continue
+                txt = strip_attrs_and_docs(src.text[a:b]).strip()
+                mm = re.match(r'(?:pub(?:\s*\([^)]*\))?\s+)?const\s+' + name + r'\s*:\s*(.*?)\s*=\s*(.*);\s*$', txt, re.S)
+                if not mm:
+                    continue
+                o = body.index('{')
+                body = body[:o + 1] + '\n\tlet %s: %s = %s;' % (name, mm.group(1), mm.group(2)) + body[o + 1:]
+                log.append(dict(rule='AUTOCONST', before=txt[:160], after='let %s: %s = %s; (at the top of %s)' % (name, mm.group(1), mm.group(2)[:80], qn)))
+                added = True
+            if not added:
+                break
+        return body
 
     def _index_proof_fns(self, text):
         """Template-written lemmas (`proof fn`): record their line ranges so that a failed lemma is attributed by name."""
@@ -410,6 +442,10 @@ class Assembler:
         if opt['tail']:
             body = rewrite.rule_R14(body, log)
         plain = body
+        # ---- AUTOCONST: a module-level `const NAME: T = E;` of the same file that the body refers to and that the unit
+        # does not define is bound at the top of the body as `let NAME: T = E;` (same value; lets "magic number ->
+        # named constant" refactors through instead of making the unit UNDECIDED)
+        body = self._autoconst(body, src, qn, log)
         # ---- splice spec sections (spec text only)
         body = self._splice(body, sections, qn)
         self.items.append(dict(kind='fn', file=rel, name=qn, sha=sha, rules=[l_['rule'] for l_ in log]))
